@@ -527,13 +527,13 @@ pub fn c09_fft<T: Elem>(st: &mut Stats, prop: &str, case_base: &str, fft: &Arc<d
 // ---------------------------------------------------------------------------------------------
 // C15
 
-pub fn c15_fft<T: Elem>(st: &mut Stats, prop: &str, case_base: &str, fft: &Arc<dyn Fft<T>>, n: usize, rng: &mut Rng, thorough: bool) {
+pub fn c15_fft<T: Elem>(st: &mut Stats, prop: &str, case_base: &str, fft: &Arc<dyn Fft<T>>, n: usize, rng: &mut Rng, thorough: bool, light: bool) {
     if n == 0 {
         return;
     }
     let z = zero::<T>();
     let adv = fft.get_immutable_scratch_len();
-    let kmax = if n > 65536 { 2 } else if n > 4096 { 3 } else { 8 };
+    let kmax = if light { 2 } else if n > 65536 { 2 } else if n > 4096 { 3 } else { 8 };
     // (data_len, out_len, scratch_len)
     let mut shapes: Vec<(usize, usize, usize, bool)> = vec![];
     for k in 1..=kmax {
@@ -579,8 +579,8 @@ pub fn c15_fft<T: Elem>(st: &mut Stats, prop: &str, case_base: &str, fft: &Arc<d
                     ("call_panicked", J::Bool(r.outcome.is_err())),
                 ]);
             }
-            if !thorough && n > 2048 {
-                break; // one placement is enough for the big ones in the quick tier
+            if (!thorough && n > 2048) || light {
+                break; // one placement is enough for the big ones in the quick tier (and under Miri)
             }
         }
     }
@@ -729,7 +729,7 @@ pub fn run(args: &Args) {
         "C07" => go!(|st: &mut Stats, p: &str, cb: &str, fft: &Arc<dyn Fft<_>>, n, rng: &mut Rng| c07_fft(st, p, cb, fft, n, rng, t)),
         "C08" => go!(|st: &mut Stats, p: &str, cb: &str, fft: &Arc<dyn Fft<_>>, n, rng: &mut Rng| c08_fft(st, p, cb, fft, n, rng, t)),
         "C09" => go!(|st: &mut Stats, p: &str, cb: &str, fft: &Arc<dyn Fft<_>>, n, rng: &mut Rng| c09_fft(st, p, cb, fft, n, rng, t)),
-        "C15" => go!(|st: &mut Stats, p: &str, cb: &str, fft: &Arc<dyn Fft<_>>, n, rng: &mut Rng| c15_fft(st, p, cb, fft, n, rng, t)),
+        "C15" => go!(|st: &mut Stats, p: &str, cb: &str, fft: &Arc<dyn Fft<_>>, n, rng: &mut Rng| c15_fft(st, p, cb, fft, n, rng, t, light)),
         _ => go!(|st: &mut Stats, p: &str, cb: &str, fft: &Arc<dyn Fft<_>>, n, rng: &mut Rng| c03_fft(st, p, cb, fft, n, rng, t, light)),
     }
     st.max("max_n", cfg.lengths.iter().copied().max().unwrap_or(0));
